@@ -224,6 +224,12 @@ Definition check_case (c : case) : bool :=
   list_eqb lN_eqb (run_obs univ (init n) ops) obs
   && lN_eqb (flat_parents sig univ (run_ops (init n) ops)) par.
 
+(* CheckSignatureFrom alone: (child, parent, result of parent.CheckSignature on the child,
+   observed: nil error) *)
+Definition scase := (cert * cert * bool * bool)%type.
+Definition check_scase (s : scase) : bool :=
+  let '(c, p, sg, o) := s in Bool.eqb (check_sig_from (fun _ _ => sg) c p) o.
+
 (* ---------- exhaustive: every op sequence of length <= depth over an alphabet,
    depth first, folding each step's observation into a rolling checksum ---------- *)
 (* rolling checksum; N.land, not mod: N.modulo is ~700x slower under vm_compute *)
